@@ -571,6 +571,9 @@ class sptensor:
         [1] = 0.5
         [2] = 1.5
         """
+        if not (0 <= i_0 < self.ndims and 0 <= i_1 < self.ndims):
+            assert False, "Modes to contract along must be in [0, ndims)"
+
         if self.shape[i_0] != self.shape[i_1]:
             assert False, "Must contract along equally sized dimensions"
 
